@@ -211,6 +211,10 @@ class CachedSys:
         if kind == "inv":
             self.cache.invalidate(op[1])
             return None
+        if kind == "iget":  # one client: invalidate the key, then read it at the same instant (a sure miss)
+            self.cache.invalidate(op[1])
+            r = yield from self.cache.get(op[1])
+            return r
         if kind == "flush":
             r = yield from self.cache.flush()
             return r
@@ -280,7 +284,7 @@ class TierSys:
         raise KeyError(kind)
 
 
-READS = ("get", "g2")
+READS = ("get", "g2", "iget")
 WRITES = ("put", "del")
 
 
